@@ -279,6 +279,7 @@ func (d *driver) setup(spec CfgSpec) error {
 	d.teardown()
 	e := &env{spec: spec, mr: map[string]*miniredis.Miniredis{}, fspec: map[string]*FilterSpec{}}
 	var chains []any
+	var defaultOIDC map[string]any
 	for i := range spec.Filters {
 		f := &spec.Filters[i]
 		if f.ClientID == "" {
@@ -343,26 +344,44 @@ func (d *driver) setup(spec CfgSpec) error {
 			o["idle_session_timeout"] = f.Idle
 		}
 		if strings.HasPrefix(f.Store, "redis") {
-			m, ok := e.mr[f.Store]
+			srvName, db := f.Store, ""
+			if i := strings.Index(f.Store, "#"); i >= 0 { // "redis#1": database 1 of the server "redis"
+				srvName, db = f.Store[:i], "/"+f.Store[i+1:]
+			}
+			m, ok := e.mr[srvName]
 			if !ok {
 				var err error
 				if m, err = miniredis.Run(); err != nil {
 					return err
 				}
 				m.SetTime(baseTime.Add(time.Duration(d.now) * time.Second))
-				e.mr[f.Store] = m
+				e.mr[srvName] = m
 			}
-			o["redis_session_store_config"] = map[string]any{"server_uri": "redis://" + m.Addr()}
+			o["redis_session_store_config"] = map[string]any{"server_uri": "redis://" + m.Addr() + db}
+		}
+		ftype := "oidc"
+		if f.Override {
+			ftype = "oidc_override"
+			if defaultOIDC == nil {
+				// the default carries a complete configuration (that of the first override filter)
+				defaultOIDC = map[string]any{}
+				for k, v := range o {
+					defaultOIDC[k] = v
+				}
+			}
 		}
 		chains = append(chains, map[string]any{
 			"name":    f.Name,
 			"match":   map[string]any{"header": chainHdr, "equality": f.Name},
-			"filters": []any{map[string]any{"oidc": o}},
+			"filters": []any{map[string]any{ftype: o}},
 		})
 		d.rec.addSecret(f.ClientSecret, "clientSecret")
 	}
 	doc := map[string]any{"listen_address": "127.0.0.1", "listen_port": 10003, "log_level": "error",
 		"chains": chains, "allow_unmatched_requests": spec.AllowUnmatched}
+	if defaultOIDC != nil {
+		doc["default_oidc_config"] = defaultOIDC
+	}
 	if len(spec.TriggerRules) > 0 {
 		var tr any
 		_ = json.Unmarshal(spec.TriggerRules, &tr)
